@@ -5,7 +5,7 @@
 From Coq Require Import ZArith List Bool.
 From Centro Require Model.ReconC19.
 From Centro Require Import Base.Sx Base.ArrC19 Model.MorphC19 Model.HeapC19 Model.LapC19 Model.GraphC19 Model.TraceC19.
-From Centro Require Model.FillC19.
+From Centro Require Model.FillC19 Model.Hull Model.PreC19.
 Import ListNotations.
 Open Scope Z_scope.
 
@@ -40,6 +40,21 @@ Definition entry_pre (x : sx) : sx :=
   (* 9: fill_labeled_holes_loop (n |to_do| j idx i_count is_not_hole adjacent_non_hole to_do[:to_do_count]) *)
   | 9 => FillC19.kernel_pre_fill (as_Z (a 1%nat)) (as_Z (a 2%nat)) (as_Zs (a 3%nat)) (as_Zs (a 4%nat))
            (as_Zs (a 5%nat)) (as_Zs (a 6%nat)) (as_Zs (a 7%nat)) (as_Zs (a 8%nat))
+  (* 10: convex_hull_ijv (((i j v) ...) indexes) *)
+  | 10 => PreC19.kernel_pre_hull (Hull.as_rows (a 1%nat)) (as_Zs (a 2%nat))
+  (* 11: median_filter (rows cols rs cs  mrows mcols mrs mcs  orows ocols ors ocs  radius percent) *)
+  | 11 => PreC19.kernel_pre_median (as_Z (a 1%nat)) (as_Z (a 2%nat)) (as_Z (a 3%nat)) (as_Z (a 4%nat))
+            (as_Z (a 5%nat)) (as_Z (a 6%nat)) (as_Z (a 7%nat)) (as_Z (a 8%nat))
+            (as_Z (a 9%nat)) (as_Z (a 10%nat)) (as_Z (a 11%nat)) (as_Z (a 12%nat)) (as_Z (a 13%nat)) (as_Z (a 14%nat))
+  (* 12: reduction_transfer (ii jj idx count x |u| |v| |c|) *)
+  | 12 => kernel_pre_rt (as_Zs (a 1%nat)) (as_Zs (a 2%nat)) (as_Zs (a 3%nat)) (as_Zs (a 4%nat)) (as_Zs (a 5%nat))
+            (as_Z (a 6%nat)) (as_Z (a 7%nat)) (as_Z (a 8%nat))
+  (* 13: augment (n ii jj idx count x y |u| |v| |c|) *)
+  | 13 => kernel_pre_augment (as_Z (a 1%nat)) (as_Zs (a 2%nat)) (as_Zs (a 3%nat)) (as_Zs (a 4%nat)) (as_Zs (a 5%nat))
+            (as_Zs (a 6%nat)) (as_Zs (a 7%nat)) (as_Z (a 8%nat)) (as_Z (a 9%nat)) (as_Z (a 10%nat))
+  (* 14: emd_hat_int32 (plen qlen pn pext qn qext crows ccols crowext) *)
+  | 14 => PreC19.kernel_pre_emd (as_Z (a 1%nat)) (as_Z (a 2%nat)) (as_Z (a 3%nat)) (as_Z (a 4%nat)) (as_Z (a 5%nat))
+            (as_Z (a 6%nat)) (as_Z (a 7%nat)) (as_Z (a 8%nat)) (as_Z (a 9%nat))
   | _ => false
   end.
 
@@ -62,5 +77,8 @@ Definition entry_run (x : sx) : sx :=
   (* 9 (fuel |to_do| lcount j idx i_count is_not_hole adjacent_non_hole to_do[:to_do_count]) *)
   | 9 => some_b (FillC19.fill_labeled_holes_loop (as_nat (a 1%nat)) (as_Z (a 2%nat)) (as_Z (a 3%nat)) (as_Zs (a 4%nat))
                    (as_Zs (a 5%nat)) (as_Zs (a 6%nat)) (as_Zs (a 7%nat)) (as_Zs (a 8%nat)) (as_Zs (a 9%nat)))
+  (* 12 (ii jj idx count x |u| |v| |c|) *)
+  | 12 => some_b (reduction_transfer (as_Zs (a 1%nat)) (as_Zs (a 2%nat)) (as_Zs (a 3%nat)) (as_Zs (a 4%nat)) (as_Zs (a 5%nat))
+                    (as_Z (a 6%nat)) (as_Z (a 7%nat)) (as_Z (a 8%nat)))
   | _ => false
   end.
